@@ -652,11 +652,14 @@ class SCFG(Sized):
         # an arc through the to be inserted block instead.
         for name in predecessors:
             block = self.graph[name]
-            jt = list(block.jump_targets)
+            jt = list(block._jump_targets)
             # Need to create synthetic assignments for each arc from a
             # predecessors to a successor and insert it between the predecessor
             # and the newly created block
-            for s in sorted(set(jt).intersection(successors)):
+            renamed = {}
+            for s in sorted(
+                set(block.jump_targets).intersection(successors)
+            ):
                 synth_assign = self.name_gen.new_block_name(SYNTH_ASSIGN)
                 variable_assignment = {}
                 variable_assignment[branch_variable] = branch_variable_value
@@ -674,12 +677,26 @@ class SCFG(Sized):
                 branch_variable_value += 1
                 # replace previous successor with synth_assign
                 jt[jt.index(s)] = synth_assign
+                renamed[s] = synth_assign
             # finally, replace the jump_targets
-            self.add_block(
-                self.graph.pop(name).replace_jump_targets(
-                    jump_targets=tuple(jt)
-                )
+            block = self.graph.pop(name).replace_jump_targets(
+                jump_targets=tuple(jt)
             )
+            # If the predecessor is a region, the exiting block inside it
+            # holds a copy of the same arcs and needs the same renaming.
+            inner = block
+            while isinstance(inner, RegionBlock):
+                assert inner.subregion is not None
+                subgraph = inner.subregion
+                inner = subgraph.graph.pop(inner.exiting)
+                inner = inner.replace_jump_targets(
+                    jump_targets=tuple(
+                        t if t in inner.backedges else renamed.get(t, t)
+                        for t in inner._jump_targets
+                    )
+                )
+                subgraph.add_block(inner)
+            self.add_block(block)
         # initialize new block, which will hold the branching table
         new_block = SyntheticHead(
             name=new_name,
